@@ -78,7 +78,7 @@ CHECKS["C06"] = ("exploration",
   "Trusted: the independent decoder; the representable-core predicate (in_core) only says what must be accepted, refusal is never demanded outside the clearly unrepresentable set.",
   "DESIGN.md section 4, C06")
 CHECKS["C04"] = ("exploration",
-  "proptest-generated valid prefixes followed by one invalid call from a 24-kind catalogue (late-bound to the reached state); metamorphic oracle: snapshot, reopened snapshot and independently decoded string pool are identical before and after every call that returns Err",
+  "proptest-generated valid prefixes followed by one invalid call from a 26-kind catalogue (late-bound to the reached state, which may also be a foreign file without _Validation, a full pool or a catalog with orphan rows; late-bound to the reached state); metamorphic oracle: snapshot, reopened snapshot and independently decoded string pool are identical before and after every call that returns Err",
   "60,000 (600,000) generated (state, invalid call) pairs; every catalogue entry is exercised hundreds of times per quick run (see classes in the evidence).",
   "Trusted: the observer and the independent decoder. Calls that unexpectedly return Ok are left to C06/C07/C20.",
   "DESIGN.md section 4, C04")
@@ -103,8 +103,8 @@ CHECKS["C09"] = ("exploration",
   "Trusted: panic hook + catch_unwind, the counting medium and allocator. The cfb dependency is built without its own debug assertions (they fire on malformed containers and abort through lock poisoning; they are the dependency's). A pure CPU loop would be a watchdog exit 2.",
   "DESIGN.md section 4, C09")
 CHECKS["C15"] = ("fault_enumeration",
-  "fault-plan enumeration over a fault-injecting medium: every write, read and seek index of two fixed scripts x {transient, persistent}; oracle: reopen of the medium's bytes at each flush / into_inner that returned Ok under the all-Ok premise == the fault-free run's state; thorough adds proptest-generated scripts and plans",
-  "Exhaustive over the call indices of scripts (a) (fresh package: tables, 20,000-byte stream, summary, two flushes, drop table) and (b) (prepared package with a 3,200-string pool and > 8 KiB tables): ~49,500 plans in both tiers; thorough adds 60,000 generated (script, plan) pairs.",
+  "fault-plan enumeration over a fault-injecting medium: every write, read and seek index of three fixed scripts x {transient, persistent}; oracle: reopen of the medium's bytes at each flush / into_inner that returned Ok under the all-Ok premise == the fault-free run's state; both tiers add proptest-generated scripts under plans whose fault index is a generated fraction of the script's own call count",
+  "Exhaustive over the call indices of scripts (a) (fresh package: tables, 20,000-byte stream, summary, two flushes, drop table) and (b) (prepared package with a 3,200-string pool and > 8 KiB tables): and (c) (tables of exactly 4,096 / 8,192 bytes): ~69,000 plans in both tiers; plus 12,000 (200,000) generated (script, plan) pairs, 97 % of which hit their fault.",
   "Trusted: the fault-injecting medium and the differential reference (the fault-free run of the same script, whose correctness is C01's subject). Dropping a Package without flush promises nothing and is not judged.",
   "DESIGN.md section 4, C15")
 NOT_YET = {}
